@@ -31,6 +31,8 @@ type RunConfig struct {
 	Seed          int64
 	Debug         bool
 	Deadline      time.Time
+	CrossSolver   SolverKind
+	CrossEvery    int
 }
 
 type PathSample struct {
@@ -42,35 +44,36 @@ type PathSample struct {
 }
 
 type HarnessResult struct {
-	Harness      string
-	Paths        int // completed feasible paths
-	DeadPaths    int
-	ViolPaths    int
-	Decisions    int
-	Queries      int
-	Unsat        int
-	SatQ         int
-	UnknownQ     int
-	ModelHits    int
-	SolverNs     int64
-	Steps        int
-	Violations   map[string]*Violation // key kind:id -> first witness
-	ViolCount    map[string]int
-	KnownHits    map[string]*Violation // KF id -> first witness
-	KnownCount   map[string]int
-	LooseKF      map[string]int
-	Covers       map[string]int
-	CoverTapes   map[string]PathSample
-	Asserts      map[string]int
-	Problems     []string // unsupported / unknown / unwind: make the run inconclusive
-	Samples      []PathSample
-	ValTapes     []PathSample // sampled completed paths for translator validation
-	Funcs        map[string]bool
-	Shapes       map[string]int
-	WallS        float64
-	StaticCovers []string
-	Fallbacks    int
-	problemSeen  map[string]int
+	Harness                         string
+	Paths                           int // completed feasible paths
+	DeadPaths                       int
+	ViolPaths                       int
+	Decisions                       int
+	Queries                         int
+	Unsat                           int
+	SatQ                            int
+	UnknownQ                        int
+	ModelHits                       int
+	SolverNs                        int64
+	Steps                           int
+	Violations                      map[string]*Violation // key kind:id -> first witness
+	ViolCount                       map[string]int
+	KnownHits                       map[string]*Violation // KF id -> first witness
+	KnownCount                      map[string]int
+	LooseKF                         map[string]int
+	Covers                          map[string]int
+	CoverTapes                      map[string]PathSample
+	Asserts                         map[string]int
+	Problems                        []string // unsupported / unknown / unwind: make the run inconclusive
+	Samples                         []PathSample
+	ValTapes                        []PathSample // sampled completed paths for translator validation
+	Funcs                           map[string]bool
+	Shapes                          map[string]int
+	WallS                           float64
+	StaticCovers                    []string
+	Fallbacks                       int
+	Cross, CrossAgree, CrossUnknown int
+	problemSeen                     map[string]int
 }
 
 const valWant = 16
@@ -189,6 +192,11 @@ func (e *explorer) worker(id int) {
 		f, _ := os.Create(fmt.Sprintf("/verif/.work/queries-%s.smt2", e.fn.Name()))
 		ex.solver.LogFile = f
 	}
+	if e.cfg.CrossSolver != "" {
+		ex.cross = NewSolver(e.cfg.CrossSolver, e.cfg.TimeoutMs)
+		ex.cross.oneShotOnly = true
+		defer ex.cross.Close()
+	}
 	funcs := map[*ssa.Function]bool{}
 	ex.cfg = &cfgCopy
 	for {
@@ -215,6 +223,9 @@ func (e *explorer) worker(id int) {
 		e.res.SolverNs += fb.TimeNs
 	}
 	e.res.Fallbacks += ex.nFallbacks
+	e.res.Cross += ex.nCross
+	e.res.CrossAgree += ex.nCrossAgree
+	e.res.CrossUnknown += ex.nCrossUnknown
 	for f := range funcs {
 		if !e.P.isHarnessFunc(f) {
 			e.res.Funcs[f.String()] = true
